@@ -68,6 +68,18 @@ def approx_base(dom, name, a, b, extra):
     return _APPROX_UF[key](a.t, b.t, *[x.t for x in extra])
 
 
+def ord_disc(it, o):
+    """concrete -1 / 0 / 1 of an Ordering value whose discriminant may be a term (decided here if so)"""
+    d = o.disc
+    if isinstance(d, int):
+        return d
+    if it.decide(d == -1):
+        return -1
+    if it.decide(d == 0):
+        return 0
+    return 1
+
+
 def try_builtin(it, callee, args):
     c = callee
     # rustc prints std paths with or without the crate prefix depending on edition / imports
@@ -259,7 +271,7 @@ def try_builtin(it, callee, args):
             while j > 0:
                 ra, rb = elem_ref(sl, j), elem_ref(sl, j - 1)
                 o = it.call_closure(cl, [ra, rb])
-                if not (isinstance(o, EnumVal) and o.disc == -1):
+                if not (isinstance(o, EnumVal) and ord_disc(it, o) == -1):
                     break
                 va, vb = read_path(ra.cell, ra.path), read_path(rb.cell, rb.path)
                 write_path(ra.cell, ra.path, vb)
@@ -330,13 +342,22 @@ def try_builtin(it, callee, args):
     if re.match(r"^<f64 as PartialOrd(?:<f64>)?>::partial_cmp$", c) or re.match(r"^(?:core|std)::f64::<impl f64>::partial_cmp$", c):
         a, b = deref(args[0]), deref(args[1])
         used("f64::partial_cmp")
-        if it.decide(dom.cmp("Lt", a, b)):
-            return Opt(EnumVal("Ordering", "Less", -1), True)
-        if it.decide(dom.cmp("Eq", a, b)):
-            return Opt(EnumVal("Ordering", "Equal", 0), True)
-        if it.decide(dom.cmp("Gt", a, b)):
-            return Opt(EnumVal("Ordering", "Greater", 1), True)
-        return Opt(None, False)
+        if a.conc is not None and b.conc is not None:
+            if a.conc < b.conc:
+                return Opt(EnumVal("Ordering", "Less", -1), True)
+            if a.conc == b.conc:
+                return Opt(EnumVal("Ordering", "Equal", 0), True)
+            if a.conc > b.conc:
+                return Opt(EnumVal("Ordering", "Greater", 1), True)
+            return Opt(None, False)
+        # Symbolic operands: only "unordered or not" is decided here; the Ordering itself stays a term (-1 / 0 / 1) and is
+        # decided by whoever inspects it, so `matches!(a.partial_cmp(&b), Some(Greater))` forks two ways, not four.
+        lt, eq = dom.cmp("Lt", a, b), dom.cmp("Eq", a, b)
+        if z3.is_fp(a.t):
+            if it.decide(z3.Or(z3.fpIsNaN(a.t), z3.fpIsNaN(b.t))):
+                return Opt(None, False)
+        disc = z3.If(lt, z3.IntVal(-1), z3.If(eq, z3.IntVal(0), z3.IntVal(1)))
+        return Opt(EnumVal("Ordering", None, disc), True)
     if re.match(r"^(?:core|std)::f64::<impl f64>::total_cmp$", c):
         # IEEE 754 totalOrder.  Concrete operands: by their bit patterns.  Bit-precise symbolic operands: through the IEEE bit
         # vectors (sign-magnitude -> two's complement order; z3 has one NaN, so NaN payloads/signs are not distinguished).
@@ -356,16 +377,8 @@ def try_builtin(it, callee, args):
                 w = z3.fpToIEEEBV(t)
                 return z3.If(z3.Extract(63, 63, w) == 1, ~w, w | z3.BitVecVal(1 << 63, 64))
             ka, kb = zkey(a.t), zkey(b.t)
-            if it.decide(z3.ULT(ka, kb)):
-                return EnumVal("Ordering", "Less", -1)
-            if it.decide(z3.UGT(ka, kb)):
-                return EnumVal("Ordering", "Greater", 1)
-            return EnumVal("Ordering", "Equal", 0)
-        if it.decide(dom.cmp("Lt", a, b)):
-            return EnumVal("Ordering", "Less", -1)
-        if it.decide(dom.cmp("Gt", a, b)):
-            return EnumVal("Ordering", "Greater", 1)
-        return EnumVal("Ordering", "Equal", 0)
+            return EnumVal("Ordering", None, z3.If(z3.ULT(ka, kb), z3.IntVal(-1), z3.If(z3.UGT(ka, kb), z3.IntVal(1), z3.IntVal(0))))
+        return EnumVal("Ordering", None, z3.If(dom.cmp("Lt", a, b), z3.IntVal(-1), z3.If(dom.cmp("Gt", a, b), z3.IntVal(1), z3.IntVal(0))))
     m = re.match(r"^<&*(?:mut )?f64 as PartialEq(?:<&*(?:mut )?f64>)?>::(eq|ne)$", c)
     if m:
         a, b = deref(args[0]), deref(args[1])
@@ -398,6 +411,16 @@ def try_builtin(it, callee, args):
         if isinstance(x, Num):
             return x
         raise Unsupported("f64::from of %r" % (x,))
+    m = re.match(r"^<&*(?:'\w+ )?(?:usize|u64|u32|i64|i32) as (Add|Sub|Mul|Div|Rem)<&*(?:'\w+ )?(?:usize|u64|u32|i64|i32)>>::(\w+)$", c)
+    if m and all(isinstance(deref(x), int) for x in args):
+        a, b = deref(args[0]), deref(args[1])
+        used("integer " + m.group(1))
+        return it.binop(m.group(1), a, b)
+    m = re.match(r"^<(u8|u16|u32|u64|usize|i32|i64) as TryFrom<(u8|u16|u32|u64|usize|i32|i64)>>::try_from$", c)
+    if m and isinstance(args[0], int):
+        used("integer try_from")
+        bits_ = {"u8": 8, "u16": 16, "u32": 32, "u64": 64, "usize": 64, "i32": 31, "i64": 63}[m.group(1)]
+        return ResV(True, args[0]) if 0 <= args[0] < 2 ** bits_ else ResV(False, Struct("TryFromIntError", []))
     # ---- std::mem
     m = re.match(r"^(?:std|core)::mem::(swap|replace|take)::<(.*)>$", c, re.S)
     if m:
@@ -476,7 +499,17 @@ def try_builtin(it, callee, args):
     if m:
         a, b = deref(args[0]), deref(args[1])
         r = (a.disc == b.disc)
-        return r if m.group(1) == "eq" else (not r)
+        if isinstance(r, bool):
+            return r if m.group(1) == "eq" else (not r)
+        return r if m.group(1) == "eq" else z3.Not(r)
+    m = re.match(r"^(?:std|core)::cmp::Ordering::(is_lt|is_le|is_gt|is_ge|is_eq|is_ne|reverse)$", c)
+    if m:
+        o = deref(args[0])
+        used("Ordering::" + m.group(1))
+        d = o.disc
+        if m.group(1) == "reverse":
+            return EnumVal("Ordering", None, -d)
+        return {"is_lt": d < 0, "is_le": d <= 0, "is_gt": d > 0, "is_ge": d >= 0, "is_eq": d == 0, "is_ne": d != 0}[m.group(1)]
     # ---- usize helpers
     m = re.match(r"^core::num::<impl usize>::(pow|is_power_of_two|abs_diff|div_ceil|next_power_of_two|checked_add|checked_mul|checked_div|wrapping_add|rem_euclid|div_euclid)$", c)
     if m and all(isinstance(x, int) for x in args):
@@ -665,12 +698,13 @@ def try_builtin(it, callee, args):
                 half = size // 2
                 mid = base + half
                 o = it.call_closure(cl, [elem_ref(sl, mid)])
-                base = base if o.disc > 0 else mid
+                base = base if ord_disc(it, o) > 0 else mid
                 size -= half
             o = it.call_closure(cl, [elem_ref(sl, base)])
-            if o.disc == 0:
+            d_ = ord_disc(it, o)
+            if d_ == 0:
                 return ResV(True, base)
-            return ResV(False, base + (1 if o.disc < 0 else 0))
+            return ResV(False, base + (1 if d_ < 0 else 0))
         if name == "concat":
             out = []
             for i in range(len(sl)):
@@ -981,7 +1015,7 @@ def try_builtin(it, callee, args):
     # ---- iterators
     m = re.match(r"^<(.*) as (Iterator|DoubleEndedIterator|ExactSizeIterator|IntoIterator|Clone)>::(\w+)(?:::<.*>)?$", c, re.S)
     def _rangeish(x):
-        return isinstance(x, Struct) and x.name in ("Range", "RangeInclusive")
+        return isinstance(x, Struct) and x.name in ("Range", "RangeInclusive", "RangeFrom")
     def _crate_iterator(x):
         # a value of a crate type with its own `Iterator::next`: adaptors and consumers run over CrateIter
         if not isinstance(x, Struct) or m.group(3) in ("next", "size_hint", "clone"):
@@ -1065,9 +1099,10 @@ def try_builtin(it, callee, args):
                 if not isinstance(o, EnumVal):
                     raise Unsupported("min_by/max_by comparator returned %r" % (o,))
                 # std: max_by keeps the LAST of equal maxima, min_by the FIRST of equal minima
-                if name == "max_by" and o.disc <= 0:
+                d_ = ord_disc(it, o)
+                if name == "max_by" and d_ <= 0:
                     best = x
-                if name == "min_by" and o.disc > 0:
+                if name == "min_by" and d_ > 0:
                     best = x
             return Opt(best, True) if best is not None else Opt(None, False)
         if name == "reduce":
@@ -1082,6 +1117,28 @@ def try_builtin(it, callee, args):
                     break
                 acc = it.call_closure(cl, [acc, x])
             return Opt(acc, True)
+        if name == "try_for_each":
+            from interp import Cell as _Cell
+            cl = _Cell(args[1])
+            kind = None
+            while True:
+                x = itr.next(it)
+                if x is None:
+                    break
+                r = it.call_closure(cl, [x])
+                if isinstance(r, Opt):
+                    kind = "opt"
+                    if not r.some:
+                        return r
+                elif isinstance(r, ResV):
+                    kind = "res"
+                    if not r.ok:
+                        return r
+                else:
+                    raise Unsupported("try_for_each closure returned %r" % (r,))
+            if kind is None:
+                kind = "opt" if re.search(r"Option<", c.split("try_for_each", 1)[1]) else "res"
+            return Opt(UNIT, True) if kind == "opt" else ResV(True, UNIT)
         if name == "try_fold":
             from interp import Cell as _Cell
             cl = _Cell(args[2])
